@@ -3,6 +3,7 @@ Line protocol for the safety model at `Float` (C++ side: harness/safety.cc).
 
   safety <tag> <data…> | x y z          CalcSafetyDistance{pos}(surf)            → hex double
   flag   <tag> <data…> |                S::simple_safety()                       → 0 / 1
+  findmax m x y z / <level> / …         same, through the overload find_safety(max_step = m)
   find x y z / <level> / <level> …      OrangeTrackView::find_safety() on a geometry with one
                                         universe per level, daughter of volume 1 (unit) or of
                                         every cell (rect array) of the previous level
@@ -91,7 +92,7 @@ def levelFlags (l : Level Float) : String :=
     s!"{fl},{if supportsSimpleSafety fl then 1 else 0}"
   | .rect .. => "-"
 
-def findOp (pos : Vec3 Float) (levels : List (Level Float)) : String :=
+def findOp (maxStep : Option Float) (pos : Vec3 Float) (levels : List (Level Float)) : String :=
   let ps := levelPositions levels pos
   if (levels.zip ps).any fun (l, p) => levelOnSurface l p then "init-failed"
   else
@@ -101,7 +102,10 @@ def findOp (pos : Vec3 Float) (levels : List (Level Float)) : String :=
       | .unit f faces => { l with geom := .unit (insertVolumeFlags f faces) faces }
       | _ => l
     let fl := " ".intercalate (levels.map levelFlags)
-    s!"flags={fl} safety={hxo (findSafety lv pos)}"
+    let r := match maxStep with
+      | none => findSafety lv pos
+      | some m => findSafetyMax m lv pos
+    s!"flags={fl} safety={hxo r}"
 
 def isUnit : Option (Level Float) → Bool
   | some ⟨_, .unit ..⟩ => true
@@ -123,7 +127,16 @@ def driverStep (st : Unit) (line : String) : Unit × String :=
          match pfs p, lvls.mapM parseLevel with
          | some [x, y, z], some ls =>
            -- the global universe and the innermost universe must be units
-           if isUnit ls.head? && isUnit ls.getLast? then findOp ⟨x, y, z⟩ ls else "bad-op"
+           if isUnit ls.head? && isUnit ls.getLast? then findOp none ⟨x, y, z⟩ ls else "bad-op"
+         | _, _ => "bad-op"
+       | [] => "bad-op")
+  | "findmax" :: rest =>
+      (match splitAt "/" rest with
+       | p :: lvls =>
+         match pfs p, lvls.mapM parseLevel with
+         | some [m, x, y, z], some ls =>
+           if isUnit ls.head? && isUnit ls.getLast? then findOp (some m) ⟨x, y, z⟩ ls
+           else "bad-op"
          | _, _ => "bad-op"
        | [] => "bad-op")
   | _ => "bad-op")
